@@ -82,8 +82,16 @@ impl Engine for TourEngine {
     }
 
     fn eval(&self, tape: &Tape) -> CaseOutcome {
-        let mut o = CaseOutcome::new(tape.digest());
         let inst = decode_inst(tape, &self.cfg, "");
+        self.eval_inst(&inst, tape.digest())
+    }
+}
+
+impl TourEngine {
+    /// The whole per-network check for an instance given directly (tape runs and the exhaustive
+    /// small family both end here).
+    pub fn eval_inst(&self, inst: &Inst, digest: u64) -> CaseOutcome {
+        let mut o = CaseOutcome::new(digest);
         let input = inst.to_json();
         let cx = match sut::catch(|| Ctx::load(&input)) {
             Ok(Ok(c)) => c,
@@ -303,4 +311,144 @@ impl Engine for TourEngine {
         o.findings = fs;
         o
     }
+}
+
+// ---------------------------------------------------------------------------------------------
+// exhaustive small family (thorough tier): EVERY network with <= 3 activities on a 6-tick line
+// ---------------------------------------------------------------------------------------------
+
+/// one activity of the small family: kind 0 = trip, 1 = slot
+#[derive(Clone, Copy, Debug, PartialEq, Eq, PartialOrd, Ord)]
+pub struct SmallAct {
+    pub slot: bool,
+    pub origin: usize,
+    pub dest: usize,
+    pub start: i64,
+    pub dur: i64,
+}
+
+pub fn small_act_options() -> Vec<SmallAct> {
+    let mut v = Vec::new();
+    for start in 0..6 {
+        for dur in 1..=2 {
+            for origin in 0..2 {
+                for dest in 0..2 {
+                    v.push(SmallAct { slot: false, origin, dest, start, dur });
+                }
+                v.push(SmallAct { slot: true, origin, dest: origin, start, dur });
+            }
+        }
+    }
+    v
+}
+
+/// parameter settings: (shunt_min ticks, shunt_dh ticks, dead-head ticks, forbid)
+pub fn small_param_options() -> Vec<(u64, u64, u64, bool)> {
+    let mut v = Vec::new();
+    for sm in [0u64, 1] {
+        for sd in [0u64, 1] {
+            for dh in [0u64, 1, 3] {
+                for fb in [false, true] {
+                    v.push((sm, sd, dh, fb));
+                }
+            }
+        }
+    }
+    v
+}
+
+pub fn small_instance(acts: &[SmallAct], p: (u64, u64, u64, bool)) -> Inst {
+    let base = days_from_civil(2024, 2, 28) * 86400;
+    let tick = 600i64;
+    let locs = vec!["L0".to_string(), "L1".to_string()];
+    let mut routes = Vec::new();
+    let mut departures = Vec::new();
+    let mut slots = Vec::new();
+    for (i, a) in acts.iter().enumerate() {
+        if a.slot {
+            slots.push(SlotIn { id: format!("M{}", i), location: locs[a.origin].clone(), start: fmt_time(base + a.start * tick), end: fmt_time(base + (a.start + a.dur) * tick), tracks: 2 });
+        } else {
+            routes.push(Route { id: format!("R{}", i), vtype: "T0".into(), segs: vec![RSeg { id: format!("R{}S0", i), order: 0, origin: locs[a.origin].clone(), destination: locs[a.dest].clone(), distance: 1000, duration: (a.dur * tick) as u64, max_form: None }] });
+            departures.push(Departure { id: format!("P{}", i), route: format!("R{}", i), segs: vec![DSeg { id: format!("P{}S0", i), rseg: format!("R{}S0", i), departure: fmt_time(base + a.start * tick), passengers: 1, seated: 0 }] });
+        }
+    }
+    let dh = p.2 * tick as u64;
+    Inst {
+        types: vec![VType { id: "T0".into(), capacity: 100, seats: 100, max_form: None }],
+        locs: locs.clone(),
+        depots: None,
+        routes,
+        departures,
+        slots: if slots.is_empty() { None } else { Some(slots) },
+        dh_indices: locs,
+        dh_durations: vec![vec![0, dh], vec![dh, 0]],
+        dh_distances: vec![vec![0, 5000], vec![5000, 0]],
+        forbid: Some(p.3),
+        shunt_min: p.0 * tick as u64,
+        shunt_dh: p.1 * tick as u64,
+        max_distance: Some(100_000),
+        costs: Costs { staff: 1, service: 1, maintenance: Some(1), dead_head: 2, idle: 1 },
+        nulls: false,
+    }
+}
+
+/// Enumerate this worker's shard of the whole family; returns a JSON summary (and the first
+/// failing case, if any).
+pub fn exhaustive_shard(shard: usize, nshards: usize) -> serde_json::Value {
+    let opts = small_act_options();
+    let params = small_param_options();
+    let engine = TourEngine { cfg: GenCfg::quick(), max_chains: 10_000, max_pairs: 10_000_000 };
+    let mut networks = 0u64;
+    let mut pairs = 0u64;
+    let mut with_trip = 0u64;
+    let mut nontrivial = 0u64;
+    let mut idx = 0usize;
+    let mut failure = serde_json::Value::Null;
+    // multisets of size 1..=3 with at least one trip (an instance needs a departure segment)
+    let n = opts.len();
+    'outer: for a in 0..n {
+        for b in a..=n {
+            for c in b..=n {
+                // b == n / c == n encode "absent" (sizes 1 and 2); keep canonical forms only
+                if b == n && c != n {
+                    continue;
+                }
+                let mut acts = vec![opts[a]];
+                if b < n {
+                    acts.push(opts[b]);
+                }
+                if c < n {
+                    acts.push(opts[c]);
+                }
+                if acts.iter().all(|x| x.slot) {
+                    continue;
+                }
+                for p in &params {
+                    idx += 1;
+                    if idx % nshards != shard {
+                        continue;
+                    }
+                    let inst = small_instance(&acts, *p);
+                    let o = engine.eval_inst(&inst, idx as u64);
+                    networks += 1;
+                    with_trip += 1;
+                    pairs += o.counters.get("pairs").copied().unwrap_or(0);
+                    if o.nontrivial {
+                        nontrivial += 1;
+                    }
+                    if let Some(f) = o.findings.iter().find(|f| f.prop == "C12") {
+                        failure = json!({"message": f.msg, "exhaustive_case": {"acts": acts.iter().map(|x| json!([x.slot, x.origin, x.dest, x.start, x.dur])).collect::<Vec<_>>(), "params": [p.0, p.1, p.2, p.3]}, "decoded_case": o.sample});
+                        break 'outer;
+                    }
+                }
+            }
+        }
+    }
+    json!({"networks": networks, "pairs": pairs, "nontrivial": nontrivial, "with_trip": with_trip, "failure": failure})
+}
+
+pub fn exhaustive_case_from_json(v: &serde_json::Value) -> Option<Inst> {
+    let acts: Vec<SmallAct> = v["acts"].as_array()?.iter().map(|a| SmallAct { slot: a[0].as_bool().unwrap_or(false), origin: a[1].as_u64().unwrap_or(0) as usize, dest: a[2].as_u64().unwrap_or(0) as usize, start: a[3].as_i64().unwrap_or(0), dur: a[4].as_i64().unwrap_or(1) }).collect();
+    let p = (v["params"][0].as_u64()?, v["params"][1].as_u64()?, v["params"][2].as_u64()?, v["params"][3].as_bool()?);
+    Some(small_instance(&acts, p))
 }
